@@ -20,6 +20,8 @@ use super::CheckDef;
 #[derive(Clone, Debug, serde::Serialize, serde::Deserialize, Hash)]
 pub enum St {
     Map,
+    /// a map that sleeps (microseconds per element): creates back-pressure for bursts
+    SlowMap(u32),
     Shuffle,
     GroupBy(i64),
     ReplicateOne,
@@ -34,6 +36,9 @@ pub struct Case18 {
     pub stages: Vec<St>,
     /// pause before each input in ms
     pub pauses: Vec<u32>,
+    /// after the paced inputs: a burst of this many inputs sent 100 us apart
+    #[serde(default)]
+    pub burst: u32,
 }
 
 pub fn decode(choices: &[u16]) -> Case18 {
@@ -61,6 +66,14 @@ pub fn decode(choices: &[u16]) -> Case18 {
             _ => St::ReplicateOne,
         });
     }
+    let burst = if ch.flag(1, 3) {
+        // a burst faster than the next block, then silence
+        let pos = ch.below(stages.len() + 1);
+        stages.insert(pos, St::SlowMap([500u32, 2000][ch.below(2)]));
+        [50u32, 200, 400][ch.below(3)]
+    } else {
+        0
+    };
     let n = 1 + ch.below(12);
     let d = adaptive.map_or(10, |a| a.1);
     let pauses = (0..n)
@@ -70,7 +83,7 @@ pub fn decode(choices: &[u16]) -> Case18 {
             _ => d * 2,
         })
         .collect();
-    Case18 { layout, adaptive, fixed, stages, pauses }
+    Case18 { layout, adaptive, fixed, stages, pauses, burst }
 }
 
 #[derive(Debug, Default, Clone)]
@@ -84,12 +97,14 @@ pub struct Outcome {
 
 fn boundaries(c: &Case18) -> usize {
     // every repartitioning stage is a block boundary, plus the one in front of collect_channel
-    c.stages.iter().filter(|s| !matches!(s, St::Map)).count() + 1
+    c.stages.iter().filter(|s| !matches!(s, St::Map | St::SlowMap(_))).count() + 1
 }
 
 pub fn cap(c: &Case18) -> Duration {
     let d = c.adaptive.map_or(0, |a| a.1) as u64;
-    Duration::from_millis((40 * boundaries(c) as u64 * d).max(3000))
+    // time the slow stage needs to work through the burst, on top of the batching cap
+    let work: u64 = c.stages.iter().map(|s| if let St::SlowMap(us) = s { (*us as u64 * c.burst as u64) / 1000 } else { 0 }).sum();
+    Duration::from_millis((40 * boundaries(c) as u64 * d).max(3000) + 2 * work)
 }
 
 pub fn run_case(c: &Case18, addr: AddrSeed) -> Result<Outcome, String> {
@@ -109,6 +124,13 @@ pub fn run_case(c: &Case18, addr: AddrSeed) -> Result<Outcome, String> {
         for st in &c2.stages {
             s = match st {
                 St::Map => erase(s.map(|x: i64| x)),
+                St::SlowMap(us) => {
+                    let us = *us as u64;
+                    erase(s.map(move |x: i64| {
+                        std::thread::sleep(Duration::from_micros(us));
+                        x
+                    }))
+                }
                 St::Shuffle => erase(s.shuffle()),
                 St::GroupBy(k) => {
                     let k = *k;
@@ -142,6 +164,13 @@ pub fn run_case(c: &Case18, addr: AddrSeed) -> Result<Outcome, String> {
                 std::thread::sleep(Duration::from_millis(*p as u64));
                 sent.push(Instant::now());
                 if tx.send(i as i64).is_err() {
+                    break;
+                }
+            }
+            for j in 0..c3.burst as usize {
+                std::thread::sleep(Duration::from_micros(100));
+                sent.push(Instant::now());
+                if tx.send((c3.pauses.len() + j) as i64).is_err() {
                     break;
                 }
             }
@@ -198,7 +227,7 @@ pub fn run_case(c: &Case18, addr: AddrSeed) -> Result<Outcome, String> {
 }
 
 pub fn judge(c: &Case18, o: &Outcome) -> Result<(), String> {
-    let n = c.pauses.len();
+    let n = c.pauses.len() + c.burst as usize;
     if c.adaptive.is_some() {
         let missing: Vec<usize> = o.latencies_ms.iter().enumerate().filter(|(_, l)| l.is_none()).map(|(i, _)| i).collect();
         if !missing.is_empty() {
@@ -238,6 +267,7 @@ fn run(ctx: &Ctx, _mode: &str) -> Report {
                 rep.class_if(c.adaptive.is_none(), "fixed_or_single(flushed_at_close)");
                 rep.class_if(c.layout.is_remote(), "config:multi_host");
                 rep.class(&format!("boundaries:{}", boundaries(&c)));
+                rep.class_if(c.burst > 0, "burst_then_silence_with_back_pressure");
                 if let Some((_, d)) = c.adaptive {
                     for l in o.latencies_ms.iter().flatten() {
                         lat.borrow_mut().push(*l / (d as f64 * boundaries(&c) as f64));
@@ -272,7 +302,7 @@ pub fn def() -> CheckDef {
     CheckDef {
         id: "C18",
         level: "exploration",
-        rule: "timing jobs ChannelSource -> 1-4 repartitioning boundaries (shuffle / group_by / replication(One), optional maps) -> collect_channel on local and multi-host layouts; batch mode adaptive(n in {1,4,64,1024}, d in {5,10,20,50} ms) or single/fixed; 1-12 inputs handed over one by one with pauses of 0, d/2 or 2d, then the source is kept open and idle; oracle: (a) adaptive: every element reaches the sink while the source is idle - a violation is declared only after max(3 s, 40 x boundaries x d) (measured latencies are reported relative to boundaries x d); (b) any mode: after the source is closed all elements have arrived when the job ends and the sink channel disconnects; the result-invariance part (c) is C01's metamorphic comparison across batch modes; non-trivial = adaptive, >= 2 boundaries and a pause >= d; distinct = hash of the case",
+        rule: "timing jobs ChannelSource -> 1-4 repartitioning boundaries (shuffle / group_by / replication(One), optional maps) -> collect_channel on local and multi-host layouts; batch mode adaptive(n in {1,4,64,1024}, d in {5,10,20,50} ms) or single/fixed; 1-12 inputs handed over one by one with pauses of 0, d/2 or 2d, optionally followed by a burst of 50-400 inputs 100 us apart in front of a slow (0.5-2 ms per element) map, then the source is kept open and idle; oracle: (a) adaptive: every element reaches the sink while the source is idle - a violation is declared only after max(3 s, 40 x boundaries x d) (measured latencies are reported relative to boundaries x d); (b) any mode: after the source is closed all elements have arrived when the job ends and the sink channel disconnects; the result-invariance part (c) is C01's metamorphic comparison across batch modes; non-trivial = adaptive, >= 2 boundaries and a pause >= d; distinct = hash of the case",
         assumptions: &["'small multiple of the delay' is judged with a generous cap (seconds) so that scheduling noise on a loaded machine cannot raise an alarm; the measured ratio is reported as evidence only"],
         modes: |t| vec![("main", t.pick(8, 8))],
         run,
